@@ -183,6 +183,25 @@ R8 = {
 for _k, _v in R8.items():
     CHECKS[_k]["text"] += " " + _v
 
+R9 = {
+ "C01": "Statements and declarations off the beaten track (bare catch, loops without body or condition, open-ended slices, tuples with holes, named arguments and call options, type information, assembly with calls, unnamed parameters, interface declarations, value types, file-level-only files).",
+ "C03": "Files without any contract, directive-only, empty and comment-only files in the trees.",
+ "C04": "Files without a single definition (empty, blank, comment-only); the rarely used constructs of scale.rs.",
+ "C07": "An unprotected call next to file-level definitions; directive-only and file-level-only files; all texts of the directory pass also in one nested tree.",
+ "C09": "All texts of the directory pass also in one nested tree under four listing orders.",
+ "C11": "Path-like file names (./A.sol, ../C.sol, /abs/D.sol).",
+ "C12": "Entries before the first section count towards the part they stand in; at the level of the program, the report of a later run in a shared working directory equals its report in a fresh one (twelve pairs of runs).",
+ "C13": "The using file listed before the file that declares a value type; nested multi-line findings; every listing order of the many-findings directory; the later-run sequence of C12.",
+ "C14": "Corpus files that begin with another directive; twelve spellings of the analysed directory (., ./, .., trailing slash, absolute); every third configured run follows an all-pattern run in its working directory.",
+ "C15": "A predecessor that declares value types, constants and a library; two extra files (uses value types by name, a chain of initialisers) with fresh-thread baselines, repeated twenty times and after every predecessor.",
+ "C16": "Every tree with a sub-directory also under a relative spelling of its root, with a trailing slash and with ./; contract-less eligible files.",
+ "C17": "The contents of all plain string literals replaced by x's of the same length flag the same tokens; signatures inside strings; array updates with identifier and member indices.",
+ "C18": "A fifth initial tree: contracts in sub-directories only, one of them with rarely used constructs.",
+ "C19": "48 item templates (assignments outside any function, loops with missing parts, writes in receive / fallback / modifier).",
+}
+for _k, _v in R9.items():
+    CHECKS[_k]["text"] += " " + _v
+
 NOT_YET = "check not built yet in this revision of /verif (see DESIGN.md section 7 for the planned decision procedure)"
 
 def main():
